@@ -11,6 +11,11 @@ var verifSym = map[string]rune{
 	"a~": 'á', "A~": 'Á', "e~": 'é', "han": '漢', " ": ' ', "TAB": '\t',
 	"_": '_', "-": '-', ".": '.', "$": '$', "^": '^', "'": '\'', "!": '!', "\\": '\\', "(": '(', ")": ')', "*": '*', "+": '+',
 	"/": '/', ",": ',', ":": ':', ";": ';', "|": '|',
+	// added for the field tokenizer (C10): control characters, white space beyond TAB / SPACE, characters whose UTF-8
+	// encoding contains the bytes 0x85 / 0xA0 / 0x80
+	"CR": '\r', "VT": '\v', "FF": '\f', "LF": '\n', "BS": '\b', "US": '\x1f', "DEL": '\x7f',
+	"NBSP": '\u00a0', "NEL": '\u0085', "IDSP": '\u3000', "EMSP": '\u2003', "ZWSP": '\u200b',
+	"a`": '\u00e0', "aog": '\u0105', "dag": '\u2020', "ni": '\u4f60', "hori": '\u5800',
 }
 
 var verifSymOf = func() map[rune]string {
